@@ -32,6 +32,7 @@ struct Slot {
   int kind;  // 0 = no wrapper alive, 1 = Optional<T>, 2 = Optional<U>   (Any histories: 1 = alive)
 };
 static Slot g_slots[NSLOTS];
+alignas(64) static unsigned char g_varbuf[2][SLOTSZ];   // storage of the named payload variables (outside the wrapper slots)
 
 static int slot_of(const void *p)
 {
@@ -522,6 +523,7 @@ template <typename F> struct Run {
   using OT = Optional<T>; using OU = Optional<U>;
 
   static void scrub(int i) { std::memset(g_slots[i].buf, 0xA5, SLOTSZ); }
+  static T *vars[2];
 
   template <typename X> static std::string misal(const Optional<X> &o)
   {
@@ -565,6 +567,61 @@ template <typename F> struct Run {
     std::ostringstream o;
     int i = f.size() > 1 ? std::stoi(f[1]) : 0;
     auto num = [&](size_t k) { return std::stol(f[k]); };
+    // value operations whose argument is a NAMED payload variable of the harness, in each value category
+    // (0 prvalue: a temporary copy, 1 xvalue: std::move(var), 2 const lvalue, 3 non-const lvalue); the variable is
+    // inspected afterwards (vr) and reused.  member: 0 Optional(const T&), 1 emplace, 2 operator=(U&&), 3 make_optional
+    if (c == "sv") {
+      int k = i;
+      T t = F::encT(num(2));
+      if (vars[k]) *vars[k] = t; else vars[k] = new (g_varbuf[k]) T(t);       // (over-aligned payloads: no plain new in C++11)
+      return "ok";
+    }
+    if (c == "vr") {
+      if (!vars[i]) return "val=none";
+      G.quiet = true;
+      long v = F::decT(*vars[i]);
+      G.quiet = false;
+      return "val=" + std::to_string(v);
+    }
+    if (c == "vu") {
+      int m = i, slot = (int)num(2), k = (int)num(4), cat = (int)num(5);
+      if (num(3) != 0) return "badop";
+      if (!vars[k]) return "ill";
+      T &v = *vars[k];
+      const T &cv = v;
+      int ks = g_slots[slot].kind;
+      if (m == 0 || m == 3) {
+        if (ks != 0) return "ill";
+        scrub(slot);
+        if (m == 0) {
+          if (cat == 0) new (addr<T>(slot)) OT(T(v));
+          else if (cat == 1) new (addr<T>(slot)) OT(std::move(v));
+          else if (cat == 2) new (addr<T>(slot)) OT(cv);
+          else new (addr<T>(slot)) OT(v);
+        } else {
+          if (cat == 0) new (addr<T>(slot)) OT(rkcommon::utility::make_optional<T>(T(v)));
+          else if (cat == 1) new (addr<T>(slot)) OT(rkcommon::utility::make_optional<T>(std::move(v)));
+          else if (cat == 2) new (addr<T>(slot)) OT(rkcommon::utility::make_optional<T>(cv));
+          else new (addr<T>(slot)) OT(rkcommon::utility::make_optional<T>(v));
+        }
+        g_slots[slot].kind = 1;
+        return "ok";
+      }
+      if (ks != 1) return "ill";
+      OT &w = at<T>(slot);
+      if (m == 1) {
+        if (cat == 0) w.emplace(T(v));
+        else if (cat == 1) w.emplace(std::move(v));
+        else if (cat == 2) w.emplace(cv);
+        else w.emplace(v);
+      } else {
+        if (cat == 0) w = T(v);
+        else if (cat == 1) w = std::move(v);
+        else if (cat == 2) w = cv;
+        else w = v;
+      }
+      return "ok";
+    }
     if (c == "es" || c == "eu") {
       if (EnvGet<F>::kind < 0) return "badop";
       if (c == "es") setenv(env_name(i).c_str(), EnvGet<F>::render(num(2)).c_str(), 1);
@@ -646,6 +703,23 @@ template <typename F> struct Run {
       }
       return "ok";
     }
+    if (c == "adr" || c == "edr") {
+      // the argument is the payload of ANOTHER wrapper, *j (mv: std::move(*j)): c = *a goes to operator=(U&&), not to the
+      // wrapper assignment; the source wrapper is inspected by every dump
+      int j = (int)num(2), kj = g_slots[j].kind;
+      bool mv = num(3) == 1;
+      if (kj == 0 || ki != kj) return "ill";
+      if (ki == 1) {
+        if (!at<T>(j).has_value() || (c == "edr" && i == j)) return "ill";
+        if (c == "adr") { if (mv) at<T>(i) = std::move(*at<T>(j)); else at<T>(i) = *at<T>(j); }
+        else { if (mv) at<T>(i).emplace(std::move(*at<T>(j))); else at<T>(i).emplace(*at<T>(j)); }
+      } else {
+        if (!at<U>(j).has_value() || (c == "edr" && i == j)) return "ill";
+        if (c == "adr") { if (mv) at<U>(i) = std::move(*at<U>(j)); else at<U>(i) = *at<U>(j); }
+        else { if (mv) at<U>(i).emplace(std::move(*at<U>(j))); else at<U>(i).emplace(*at<U>(j)); }
+      }
+      return "ok";
+    }
     if (c == "em") {
       if (ki == 1) { T t = F::encT(num(2)); T &r = at<T>(i).emplace(t); if (&r != &at<T>(i).value()) return "ok!EMPLACE-REF"; }
       else { U t = F::encU(num(2)); at<U>(i).emplace(t); }
@@ -712,6 +786,7 @@ template <typename F> struct Run {
     }
     for (int i = 0; i < NSLOTS; ++i)
       if (g_slots[i].kind) step("d:" + std::to_string(i));
+    for (int k = 0; k < 2; ++k) { if (vars[k]) vars[k]->~T(); vars[k] = nullptr; }
     std::string at = G.take_atoms();
     std::string out = "end" + G.take_misuse();
     if (RegMode<F>::v == 0 && (!G.live.empty() || G.constructs != G.destroys))
@@ -720,6 +795,8 @@ template <typename F> struct Run {
     return line;
   }
 };
+
+template <typename F> typename F::T *Run<F>::vars[2] = {nullptr, nullptr};
 
 // ------------------------------------------------------------------ move-only payload
 // Mov: copy constructor and copy assignment deleted; everything else user-provided and logged.  Only the members of
@@ -980,6 +1057,13 @@ static std::string any_step(const std::string &tok)
       else if (j % 2) new (g_slots[i].buf) Any(any_at(j));
       else new (g_slots[i].buf) Any(static_cast<const Any &>(any_at(j)));
     } else if (c == "cd") new (g_slots[i].buf) Any();
+    else if (num(3) % 2 && (num(2) == 2 || num(2) == 5)) {
+      // value category: Any(T) takes its argument BY VALUE - a named non-const lvalue must come back unchanged
+      g_slots[i].kind = 1;
+      if (num(2) == 2) { std::string s = astr(num(3)); new (g_slots[i].buf) Any(s); if (s != astr(num(3))) return "ok!SRC-MODIFIED"; }
+      else { ATrk k(Code{num(3)}); new (g_slots[i].buf) Any(k); if (k.code != num(3)) return "ok!SRC-MODIFIED"; }
+      return "ok";
+    }
     else new (g_slots[i].buf) Any(any_make(num(2), num(3)));
     g_slots[i].kind = 1;
     return "ok";
@@ -988,7 +1072,15 @@ static std::string any_step(const std::string &tok)
   Any &a = any_at(i);
   const Any &ca = a;
   if (c == "d") { a.~Any(); g_slots[i].kind = 0; return "ok"; }
-  if (c == "av") { any_assign_value(a, num(2), num(3)); return "ok"; }
+  if (c == "av") {
+    if (num(3) % 2 && (num(2) == 2 || num(2) == 5)) {      // operator=(T) from a named non-const lvalue
+      if (num(2) == 2) { std::string s = astr(num(3)); a = s; if (s != astr(num(3))) return "ok!SRC-MODIFIED"; }
+      else { ATrk k(Code{num(3)}); a = k; if (k.code != num(3)) return "ok!SRC-MODIFIED"; }
+      return "ok";
+    }
+    any_assign_value(a, num(2), num(3));
+    return "ok";
+  }
   if (c == "ac" || c == "ma" || c == "eq" || c == "ne") {
     int j = (int)num(2);
     if (!g_slots[j].kind) return "ill";
